@@ -234,7 +234,57 @@ func (w *World) CheckProperty(prop, tier string, timeoutMs int, dump string, ver
 			}
 		}
 	}
+	// a swept function stands for "nothing here can panic": the repository functions it calls that have no
+	// contract of their own and are not verified inline (they contain a loop, a closure ...) are swept too,
+	// transitively - a helper a change moves code into is under the same obligations from its first day
+	{
+		inNames := map[string]bool{}
+		for _, n := range names {
+			inNames[n] = true
+		}
+		work := []string{}
+		for _, n := range names {
+			if fc := w.C.Funcs[n]; fc != nil && fc.Sweep && hasTag(fc.SweepTags, prop) {
+				work = append(work, n)
+			}
+		}
+		for len(work) > 0 {
+			n := work[0]
+			work = work[1:]
+			fn := w.P.Funcs[n]
+			if fn == nil {
+				continue
+			}
+			probe := NewVC(w.P, w.C, fn, w.C.Funcs[n])
+			for _, b := range fn.Blocks {
+				for _, ins := range b.Instrs {
+					ci, ok := ins.(ssa.CallInstruction)
+					if !ok {
+						continue
+					}
+					callee := ci.Common().StaticCallee()
+					if callee == nil || len(callee.Blocks) == 0 || callee.Parent() != nil || !w.P.InRepo(FuncPkgPath(callee)) {
+						continue
+					}
+					cn := CanonName(callee)
+					if inNames[cn] || w.C.Funcs[cn] != nil || probe.inlinable(callee) {
+						continue
+					}
+					if probe.inferPure(callee) && !hasLoop(callee) {
+						continue
+					}
+					w.C.Funcs[cn] = &FuncContract{Name: cn, Pkg: FuncPkgPath(callee), Sweep: true, SweepTags: []string{prop}, Tags: map[string]bool{prop: true},
+						Nilable: map[string]bool{}}
+					inNames[cn] = true
+					names = append(names, cn)
+					work = append(work, cn)
+				}
+			}
+		}
+	}
 	sort.Strings(names)
+	r.Structural = append(r.Structural, w.stateFieldObligations(prop)...)
+	r.Structural = append(r.Structural, w.callersObligations(prop)...)
 	for _, n := range names {
 		fc := w.C.Funcs[n]
 		fn := w.P.Funcs[n]
@@ -523,6 +573,7 @@ func (r *PropResult) Report() int {
 		assumptions = append(assumptions, "assumed contract: "+k)
 	}
 	var ab []string
+	ab = append(ab, symbolNotes...)
 	for k, n := range abstracted {
 		ab = append(ab, fmt.Sprintf("%s (x%d)", k, n))
 	}
@@ -594,7 +645,7 @@ func touchesField(fn *ssa.Function, field string) bool {
 				continue
 			}
 			st := deref(fa.X.Type())
-			if s, isStruct := structOf(st); isStruct && shortType(st)+"."+s.Field(fa.Field).Name() == field {
+			if _, isStruct := structOf(st); isStruct && shortType(st)+"."+recFieldName(st, fa.Field) == field {
 				return true
 			}
 		}
@@ -624,4 +675,15 @@ func writeReplay(r *PropResult, o *Obligation) string {
 	b, _ := json.MarshalIndent(rep, "", " ")
 	os.WriteFile(p, b, 0o644)
 	return p
+}
+
+func hasLoop(fn *ssa.Function) bool {
+	for _, b := range fn.Blocks {
+		for _, s := range b.Succs {
+			if s.Index <= b.Index && s.Dominates(b) {
+				return true
+			}
+		}
+	}
+	return false
 }
